@@ -12,17 +12,23 @@ and the chain order of doc.go / gen.go (views ahead of the cache: a view answer 
 Listed statements that also apply to this code (NOT wired into their checks): C17 (internal sub-queries are never subjected
 to client ACL / view policy) and C06 (reply contracts: id / question echo).
 
-tla/Views/Views.tla   Query(client, name, type, internal) over the configuration in force and the cache behind the views.
-  - TLC exhaustive: MC_Views (4 configurations: lan-then-vpn, vpn-then-lan, vpn-then-everyone (0.0.0.0/0 + ::/0), no views; 8 clients in / out of nested networks,
-    v4-mapped, IPv6; 7 names around two wildcards; 3 types; cache of <= 2 entries), 13 invariants quantified over every query
-    in every reachable state; 14 negative twins (model mutants that must each violate their named invariant).
+tla/Views/Views.tla   Query(client, name, type, internal) over the configuration in force and the cache behind the views;
+    the responders of the chain in their order: accesslist -> chaos -> views -> as112 (empty zones) -> cache -> downstream.
+  - TLC exhaustive: MC_Views (5 configurations: lan-then-vpn, vpn-then-lan, vpn-then-everyone (0.0.0.0/0 + ::/0), lan-then-vpn
+    behind an access list, no views; chaos on / off; 8 clients in / out of nested networks, v4-mapped, IPv6; 14 names around two
+    wildcards, an empty zone and three class-CH names; 4 types; cache of <= 1 entry, MC_Views2 (thorough) <= 2), 20 invariants
+    quantified over every query in every reachable state; 27 negative twins (model mutants that must each violate their
+    named invariant).
   - spec -> code (harness/xviews TestXViews): TLC-simulated behaviours forced on the REAL default chain ahead of `failover`
-    (accesslist ... views ... cache) with a scripted downstream; every step enters decoded (ServeMsg), wire-born (ServeRaw)
-    or through the internal middleware.Queryer; every real outcome is judged by the documentation's predicates (reference
-    reading with net.IPNet) and compared with the model's outcome (drift).
+    (accesslist ... chaos ... views ... as112 ... cache) with a scripted downstream; every step enters decoded (ServeMsg),
+    wire-born (ServeRaw) or through the internal middleware.Queryer; every real outcome is judged by the documentation's
+    predicates (reference reading with net.IPNet) and compared with the model's outcome (drift); local answers (view, empty
+    zone) are asked again on the other entry and must be the same.
+  - probes: behaviour the documentation does not cover, printed as OBSERVATION lines (never judged).
 
 Verdict classes (digest keys) `views/<class>`: outside, internal, foreign-view, first-match, missed, answer, answer-unlisted,
-record, short-circuit, fall-through, reply.
+record, short-circuit, fall-through, parity; `acl/<class>`: denied-answered, internal-dropped; `as112/<class>`: leak, answer,
+parity; `chaos/<class>`: disabled-answered, silent; chain/no-reply.
 """
 import json
 import os
@@ -34,7 +40,7 @@ MOD = "Views"
 SPEC = "MC_Views.tla"
 
 INVARIANTS = ["TypeInv", "ViewOnlyOwn", "OutsideNeverSeesView", "InternalBypass", "FirstMatch", "FirstViewOnly", "FallThrough",
-              "ViewAnswers", "ExactOverWild", "ClosestWild", "WildStrict", "TypeMatch", "MappedAsV4", "CacheClean", "DeniedGetsNothing", "AllowedServed", "InternalNoAcl", "EmptyLocal"]
+              "ViewAnswers", "ExactOverWild", "ClosestWild", "WildStrict", "TypeMatch", "MappedAsV4", "CacheClean", "DeniedGetsNothing", "AllowedServed", "InternalNoAcl", "EmptyLocal", "ChaosSwitch", "ChaosResponds"]
 NEGATIVE = [
     ("Neg_LastMatch.cfg", "FirstMatch"), ("Neg_Continue.cfg", "FirstViewOnly"), ("Neg_Stop.cfg", "FallThrough"),
     ("Neg_WildFirst.cfg", "ExactOverWild"), ("Neg_FarWild.cfg", "ClosestWild"), ("Neg_Apex.cfg", "WildStrict"),
@@ -43,7 +49,8 @@ NEGATIVE = [
     ("Neg_CacheView.cfg", "CacheClean"), ("Neg_CacheViewOut.cfg", "OutsideNeverSeesView"),
     ("Neg_AclOpen.cfg", "DeniedGetsNothing"), ("Neg_AclAfter.cfg", "DeniedGetsNothing"), ("Neg_AclInt.cfg", "InternalNoAcl"),
     ("Neg_NoMappedAcl.cfg", "AllowedServed"), ("Neg_EmptyOff.cfg", "EmptyLocal"), ("Neg_EmptyApex.cfg", "EmptyLocal"),
-    ("Neg_EmptyFirst.cfg", "ViewAnswers"),
+    ("Neg_EmptyFirst.cfg", "ViewAnswers"), ("Neg_ChaosOn.cfg", "ChaosSwitch"), ("Neg_ChaosDead.cfg", "ChaosResponds"),
+    ("Neg_ChaosAcl.cfg", "DeniedGetsNothing"),
 ]
 
 # abstract values of MC_Views.tla -> real spellings
@@ -68,9 +75,12 @@ UNIVERSE = {
     "configs": {"AB": [LAN, VPN], "BA": [VPN, LAN], "VA": [VPN, ALL], "ACL": [LAN, VPN], "E": []},
     "acl": {"ACL": ["n24", "nvpn"]},
     "empty": ["168.192.in-addr.arpa."],
+    "chaosNames": ["version.bind.", "id.server.", "foo.bind."], "chaosKnown": ["version.bind.", "id.server."],
+    "chaosOn": {"AB": True, "VA": True, "ACL": True, "BA": False, "E": False},
     "ttl": 60,
     "names": ["a.example.lan.", "b.example.lan.", "x.sub.example.lan.", "sub.example.lan.", "example.lan.", "bexample.lan.", "other.org.",
-              "168.192.in-addr.arpa.", "1.1.168.192.in-addr.arpa.", "2.1.168.192.in-addr.arpa.", "8.8.8.8.in-addr.arpa."],
+              "168.192.in-addr.arpa.", "1.1.168.192.in-addr.arpa.", "2.1.168.192.in-addr.arpa.", "8.8.8.8.in-addr.arpa.",
+              "version.bind.", "id.server.", "foo.bind."],
     "types": ["A", "AAAA", "TXT", "PTR"],
 }
 
@@ -136,7 +146,7 @@ def run_tier(ctx):
         "message id and entry (decoded / wire-born) are drawn by the driver",
     ]
     ctx.spec_dir(MOD)
-    num, depth = (110, 60) if not thorough else (600, 120)
+    num, depth = (130, 60) if not thorough else (600, 120)
     mjobs, mpost = model_jobs(ctx, thorough)
     warm = [lambda: ctx.go_test("./xviews", "^TestXViewsNothing$", timeout=900)]
     out = parallel(mjobs + [lambda: histories(ctx, num, depth)] + warm)
@@ -148,13 +158,23 @@ def run_tier(ctx):
     total = len(UNIVERSE["configs"]) * len(UNIVERSE["clients"]) * len(UNIVERSE["names"]) * len(UNIVERSE["types"]) * 2
     ctx.log("histories: %d simulated walks, %d steps, %d of %d (config, client, name, type, internal) combinations"
             % (len(hs), sum(len(h["steps"]) for h in hs), len(combos), total))
+    obs_path = os.path.join(ctx.scratch, "observations.tsv")
     res = ctx.go_driver("./xviews", "TestXViews", {"universe": UNIVERSE, "histories": hs, "stages": ["replay", "probes"]},
-                        name="xviews", timeout=900)
+                        name="xviews", timeout=900, env={"XVIEWS_OBS_OUT": obs_path})
     c = fold(ctx, res, "[Views] ")
+    obs = {}
+    if os.path.exists(obs_path):
+        for ln in open(obs_path).read().splitlines():
+            if "\t" in ln:
+                k, w = ln.split("\t", 1)
+                obs[k] = w
+    for k in sorted(obs):
+        print("OBSERVATION property=%s views/%s: %s" % (ctx.pid, k, obs[k]), flush=True)
+    ctx.cov["replay"]["observations"] = obs
     info = {k: c.get(k, 0) for k in (
         "histories", "steps", "entry_decoded", "entry_wire", "entry_wire-fallback", "entry_internal", "case_variants", "outcome_view",
-        "outcome_pass", "outcome_cached", "outcome_empty", "outcome_nodata", "outcome_other", "outcome_lost", "outcome_equals_model",
-        "outcome_differs_from_model", "parity_asked", "view_reply_aa_ra", "view_reply_other_flags", "probes")}
+        "outcome_pass", "outcome_cached", "outcome_empty", "outcome_chaos", "outcome_chpass", "outcome_nodata", "outcome_other", "outcome_lost", "outcome_equals_model",
+        "outcome_differs_from_model", "parity_asked", "denied_judged", "view_reply_aa_ra", "view_reply_other_flags", "probes")}
     info["drift"] = res["drift"]
     info["drift_notes"] = res.get("drift_notes", [])
     info["combinations"] = "%d of %d" % (len(combos), total)
@@ -166,15 +186,15 @@ def run_tier(ctx):
             vac.append("the walks reach %d of %d query combinations" % (len(combos), total))
         if info["steps"] < 1000 or info["entry_wire"] < 100 or info["entry_decoded"] < 100 or info["entry_internal"] < 100:
             vac.append("entries (%s)" % info)
-        if min(info["outcome_view"], info["outcome_pass"], info["outcome_cached"], info["outcome_empty"], info["outcome_lost"]) < 50:
+        if min(info["outcome_view"], info["outcome_pass"], info["outcome_cached"], info["outcome_empty"], info["outcome_chaos"], info["outcome_chpass"], info["denied_judged"]) < 50:
             vac.append("outcomes (%s)" % info)
         if info["outcome_equals_model"] < 0.5 * info["steps"]:
             vac.append("the code rarely agrees with the model (%s)" % info)
         if vac:
             raise vf.MachineryError("XVIEWS was vacuous: " + "; ".join(vac))
     ctx.log("replay: %(histories)d histories, %(steps)d steps (decoded %(entry_decoded)d, wire-born %(entry_wire)d, internal "
-            "%(entry_internal)d); outcomes view %(outcome_view)d / pass %(outcome_pass)d / cached %(outcome_cached)d / empty zone %(outcome_empty)d / no reply %(outcome_lost)d; model = code on "
-            "%(outcome_equals_model)d, differs on %(outcome_differs_from_model)d; second-entry parity on %(parity_asked)d view answers" % info)
+            "%(entry_internal)d); outcomes view %(outcome_view)d / pass %(outcome_pass)d / cached %(outcome_cached)d / empty zone %(outcome_empty)d / chaos %(outcome_chaos)d / class CH passed on %(outcome_chpass)d / no reply %(outcome_lost)d; model = code on "
+            "%(outcome_equals_model)d, differs on %(outcome_differs_from_model)d; second-entry parity on %(parity_asked)d local answers" % info)
 
 
 def run(ctx, replay):
